@@ -1,4 +1,4 @@
 SPECIFICATION TraceSpec
-INVARIANTS NoPanic HarnessRange C05_NoOverdraw C05_QueueSemantics
+INVARIANTS NoPanic HarnessRangeExact C05_NoOverdraw C05_QueueSemantics
 POSTCONDITION Accepted
 CHECK_DEADLOCK FALSE
